@@ -48,7 +48,10 @@ class Model(LogicType.Model[Meta.values]):
 
     def finish(self):
         self._check_not_finished()
-        # Enforce access first, since it may introduce a new world.
+        # Enforce access first, since it may introduce a new world. R must
+        # know every world that has a frame before it is enforced.
+        for w in self.frames:
+            self.R[w]
         self.R.enforce()
         self._complete_frames()
         for w, frame in self.frames.items():
